@@ -5,6 +5,7 @@
 From Coq Require Import List NArith ZArith Bool Lia.
 From Cao Require Import ListUtil CheckUtil Bits CardAst Bytecode Compiler CompilerGen StdlibGen Wellformed
      CompilerProofs CompilerWf.
+From Cao Require Export BitsProofs.
 Import ListNotations.
 Local Open Scope N_scope.
 
@@ -15,8 +16,6 @@ Proof.
 Qed.
 Lemma non_zero_lt x : x < two32 -> non_zero x < two32.
 Proof. unfold non_zero, nonzero_hash. destruct (x =? 0); [reflexivity | auto]. Qed.
-Lemma non_zero_neq x : non_zero x <> 0.
-Proof. unfold non_zero, nonzero_hash. destruct (N.eqb_spec x 0); [discriminate | assumption]. Qed.
 Lemma handle_of_bytes_lt bs : handle_of_bytes bs < two32.
 Proof. unfold handle_of_bytes, fnv_bytes. apply non_zero_lt, land_mask32_lt. Qed.
 Lemma hash_u64_lt k m : hash_u64 k m < two32.
@@ -39,17 +38,8 @@ Qed.
 
 Lemma handle_add_lt a b : a < two32 -> b < two32 -> handle_add a b < two32.
 Proof. intros Ha Hb. unfold handle_add. apply non_zero_lt, lxor_lt32; assumption. Qed.
-(* 3f22e7c: handles are never 0 *)
-Lemma handle_of_bytes_neq bs : handle_of_bytes bs <> 0.
-Proof. apply non_zero_neq. Qed.
-Lemma hash_u64_neq k m : hash_u64 k m <> 0.
-Proof. unfold hash_u64. apply non_zero_neq. Qed.
-Lemma handle_add_neq a b : handle_add a b <> 0.
-Proof. apply non_zero_neq. Qed.
-Lemma handle_from_u64_neq k : handle_from_u64 k <> 0.
-Proof. unfold handle_from_u64. apply hash_u64_neq. Qed.
-Lemma handle_from_u32_neq k : handle_from_u32 k <> 0.
-Proof. unfold handle_from_u32. apply hash_u64_neq. Qed.
+(* 3f22e7c: handles are never 0 - BitsProofs.handle_of_bytes_neq, hash_u64_neq, handle_add_neq,
+   handle_from_u64_neq, handle_from_u32_neq (exported below) *)
 
 Global Opaque hash_u64 handle_from_u64 handle_from_u32 handle_of_bytes handle_add.
 
